@@ -515,7 +515,17 @@ pub fn sprinkle_pulls(r: &mut Rng, cmds: &mut [Cmd], one_in: u64) {
         if let (CmdKind::Execute { block, .. }, Act::Program(p)) = (&c.kind, &mut c.act) {
             let n = block.values.len();
             if n > 0 && r.chance(1, one_in) {
-                p.pull_params = Some(if r.chance(1, 3) { 0 } else { r.below(n as u64) as u16 });
+                match r.below(3) {
+                    // never touches the ParamParser
+                    0 => p.pull_params = Some(0),
+                    // a prefix
+                    1 => p.pull_params = Some(r.below(n as u64) as u16),
+                    // steps over some (skip -> Iterator::nth), then takes a few or the rest
+                    _ => {
+                        p.pull_skip = 1 + r.below(n as u64) as u16;
+                        p.pull_params = if r.coin() { None } else { Some(1 + r.below(n as u64) as u16) };
+                    }
+                }
             }
         }
     }
